@@ -24,7 +24,11 @@ type C14Case struct {
 	Root       *string    `json:"root"`
 	Additional [][]any    `json:"additional"` // [location, [element ids]]
 	Entries    []C14Entry `json:"entries"`
-	Profile    string     `json:"profile"`
+	// results are expected about these nodes (default: the targets); Kids maps a reported node to the node its embedded-Rego
+	// trace is about ($traceNode); kids are listed in Targets too, so that the model computes their locations
+	Reported []string          `json:"reported,omitempty"`
+	Kids     map[string]string `json:"kids,omitempty"`
+	Profile  string            `json:"profile"`
 	Data       string     `json:"data"`
 }
 
@@ -61,6 +65,20 @@ func genC14(g *G, n int, out io.Writer) {
 			id := nodeId(k)
 			c.Targets = append(c.Targets, id)
 			nodes = append(nodes, map[string]any{"@id": id, "@type": []string{NS + "T"}, NS + "p0": "v"})
+		}
+		traced := i%3 == 1
+		if traced {
+			// every target links to a node of its own (with a lexical entry of its own, or none, possibly in another file):
+			// an embedded-Rego constraint designates that node as the one its trace is about
+			c.Reported = append([]string{}, c.Targets...)
+			c.Kids = map[string]string{}
+			for k := 0; k < nT; k++ {
+				kid := nodeId(1000 + k)
+				c.Kids[nodeId(k)] = kid
+				c.Targets = append(c.Targets, kid)
+				nodes[k][NS+"kid"] = map[string]any{"@id": kid}
+				nodes = append(nodes, map[string]any{"@id": kid, "@type": []string{NS + "K"}, NS + "q": k})
+			}
 		}
 		withMaps := g.coin(0.85)
 		if withMaps {
@@ -136,6 +154,19 @@ func genC14(g *G, n int, out io.Writer) {
 		c.Data = string(b)
 		// every T node fails (ex.zz is absent) -> one result, one trace per target
 		c.Profile = "profile: C14\nprefixes:\n  ex: " + NS + "\nviolation:\n  - v\nvalidations:\n  v:\n    targetClass: ex.T\n    message: m\n    propertyConstraints:\n      ex.zz:\n        minCount: 1\n"
+		if traced {
+			decl := "      - propertyConstraints:\n          ex.p0:\n            pattern: ^zzz$\n"
+			rego := "      - rego: |\n          kid := find with data.link as $node[\"" + NS + "kid\"]\n          $traceNode = kid\n          $result = false\n"
+			body := "    or:\n" + decl + rego
+			if g.coin(0.5) {
+				body = "    or:\n" + rego + decl
+			}
+			if g.coin(0.3) {
+				// the same two constraints in one failure branch through a conditional: if (pattern holds is false ...) -> not(A) or B
+				body = "    if:\n      not:\n        propertyConstraints:\n          ex.p0:\n            pattern: ^zzz$\n    then:\n      rego: |\n        kid := find with data.link as $node[\"" + NS + "kid\"]\n        $traceNode = kid\n        $result = false\n"
+			}
+			c.Profile = "profile: C14\nprefixes:\n  ex: " + NS + "\nviolation:\n  - v\nvalidations:\n  v:\n    targetClass: ex.T\n    message: m\n" + body
+		}
 		if c.Additional == nil {
 			c.Additional = [][]any{}
 		}
